@@ -135,10 +135,23 @@ def shard_work(shard, nshards, payload):
         run(cid, src)
         t.inc("class:token-soup")
     # (iv) stressors
-    for j, (cid, src) in enumerate(corpus.stressor_docs()):
+    for j, (cid, src) in enumerate(corpus.stressor_docs_all()):
         if j % nshards == shard:
             run(cid, src)
             t.inc("class:stressor")
+    # (iv-b) the generators of the other checks: what they would have to write off as "lost to a panic"
+    # is judged here (quick: their own sub-sampling for shared use; thorough: everything)
+    import importlib
+    j = 0
+    for mname in ("c03", "c04", "c05", "c09", "c10", "c11", "c12", "c20"):
+        gen = getattr(importlib.import_module(f"checks.{mname}"), "documents", None)
+        if gen is None:
+            continue
+        for cid, src in gen(tier, for_c14=(tier == "quick")):
+            if j % nshards == shard:
+                run(f"{mname}:{cid}", src)
+                t.inc("class:other-corpora")
+            j += 1
     # (v) ladders that must pass
     jobs = [(kind, d) for kind in corpus.LADDER_KINDS for d in (10, 50, 100)]
     for j, (kind, d) in enumerate(jobs):
